@@ -322,3 +322,114 @@ def oversize_confined(env):
     return dict(name='oversize_confined', validates='that refusing an oversized frame ends only that RPC (stream), on real networks',
                 cases=cases, failed=fails, ok=not fails, props=['C15', 'C06'],
                 clause='a request or response exceeding the local maximum is refused with an error for that RPC only (never a hang, a truncation or a torn-down connection)')
+
+
+CERT_EXPECT = {
+    # case: (peer_id is, client_ok, server_ok, pinned_a_ok, pinned_x_ok)      peer_id: 'a' / 'x' / None (error) / '*' (any)
+    'honest': ('a', True, True, True, False),
+    'decoy_in_name': ('a', True, True, True, False),
+    'decoy_in_extension': ('a', True, True, True, False),
+    'x_cert_as_intermediate': ('a', True, True, True, False),
+    'x_tbs_signed_by_a': ('*', False, False, False, False),
+    'ecdsa': (None, False, False, False, False),
+    'expired': ('a', False, False, False, False),
+    'not_yet_valid': ('a', False, False, False, False),
+    'other_network': ('a', False, False, False, False),
+    'empty': (None, False, False, False, False),
+    'garbage': (None, False, False, False, False),
+}
+
+
+def cert_corpus(env):
+    """C01 / C03 on the real certificate verifiers: adversarial certificates (decoy keys in names and extensions, a foreign
+    certificate in the chain, a body re-signed with another key, non-Ed25519, expired, other network, every single-byte mutation)"""
+    got = _run('cert_corpus', {}, env)
+    fails = []
+    if got.get('panicked'):
+        fails.append(dict(scenario='cert_corpus', args={}, expected=dict(note='no panic'), observed=got))
+        cases = []
+    else:
+        cases = got['cases']
+        seen = set()
+        for c in cases:
+            want = CERT_EXPECT.get(c['case'])
+            if not want:
+                continue
+            seen.add(c['case'])
+            wid = dict(a=got['a'], x=got['x']).get(want[0], want[0])
+            bad = []
+            if want[0] != '*' and c['peer_id'] != wid:
+                bad.append('the identity read from the certificate is %s, the key it was issued for and signed with is %s' % (c['peer_id'], wid))
+            for (k, w) in zip(('client_ok', 'server_ok', 'pinned_a_ok', 'pinned_x_ok'), want[1:]):
+                if c[k] != w:
+                    bad.append('%s is %s, expected %s' % (k, c[k], w))
+            if bad:
+                fails.append(dict(scenario='cert_corpus', args=dict(case=c['case'], certificate=c['what']),
+                                  expected=dict(peer_id=wid, client_ok=want[1], server_ok=want[2], pinned_a_ok=want[3], pinned_x_ok=want[4]), observed=dict(c, problems=bad)))
+        if seen != set(CERT_EXPECT):
+            raise Undecided('cert_corpus scenario did not report cases %s' % sorted(set(CERT_EXPECT) - seen))
+        if got.get('wrong_server_name_ok'):
+            fails.append(dict(scenario='cert_corpus', args=dict(case='wrong_server_name'), expected=dict(ok=False), observed=dict(ok=True)))
+        for k, msg in (('mutation_accepted_with_other_identity', 'a single-byte mutation of a valid certificate verifies while the identity read from it is not the signer'),
+                       ('mutation_accepted_by_pin_on_x', 'a single-byte mutation of A\'s certificate is accepted by a dial pinned on X')):
+            if got.get(k):
+                fails.append(dict(scenario='cert_corpus', args=dict(case=k, mutation=got[k][0]), expected=dict(accepted=False, note=msg), observed=dict(accepted=True, all=got[k])))
+        if got.get('mutation_panics'):
+            fails.append(dict(scenario='cert_corpus', args=dict(case='mutation_panics'), expected=dict(panics=0), observed=dict(panics=got['mutation_panics'])))
+    return dict(name='cert_corpus', validates='the real certificate verifiers (crypto.rs with webpki / x509-parser / pkcs8) on %d adversarial certificates and %s single-byte mutations: the identity read from an accepted certificate is the key that signed it; a pinned dial accepts only the pinned key in the END-ENTITY position'
+                % (len(cases), got.get('mutations')), cases=len(cases) + int(got.get('mutations') or 0), failed=fails, ok=not fails, props=['C01', 'C03'],
+                clause='the PeerId attributed from a certificate is the Ed25519 key the certificate is self-signed with, whatever else the certificate carries; a dial naming X accepts only a certificate whose own key is X')
+
+
+def write_sequence(env):
+    """C02 / C07: messages written and read one after the other in ONE process; every one must be encoded / decoded from ITS OWN
+    status, route, headers and body (golden vectors run each message in a fresh process and cannot see state kept between calls)"""
+    msgs, reads, want = [], [], []
+    for (st, hd, body) in [(200, {}, b'a'), (404, {}, b''), (200, {}, b'bb'), (500, {'k': 'v'}, b'c'), (429, {}, b''), (200, {}, b'a'), (408, {'k': 'w'}, b'd'), (200, {'k': 'v'}, b'')]:
+        msgs.append(dict(kind='response', status=st, headers=hd, body=list(body)))
+        w = PREAMBLE + be32(len(bincode_resp_header(st, hd))) + bincode_resp_header(st, hd) + be32(len(body)) + body
+        want.append(w)
+        reads.append((dict(kind='response', bytes=w.hex()), dict(ok=True, status=st, headers=hd, body=list(body))))
+    for (route, hd, body) in [('/a', {}, b'1'), ('/b', {}, b'1'), ('/a', {'h': '1'}, b''), ('/a', {}, b'22'), ('', {}, b''), ('/a', {}, b'1')]:
+        msgs.append(dict(kind='request', route=route, headers=hd, body=list(body)))
+        w = PREAMBLE + be32(len(bincode_req_header(route, hd))) + bincode_req_header(route, hd) + be32(len(body)) + body
+        want.append(w)
+        reads.append((dict(kind='request', bytes=w.hex()), dict(ok=True, route=route, headers=hd, body=list(body))))
+    got = _run('write_sequence', dict(messages=msgs, read=[r for (r, _) in reads]), env)
+    fails = []
+    if got.get('panicked'):
+        fails.append(dict(scenario='write_sequence', args=dict(messages=msgs), expected=dict(note='no panic'), observed=got))
+    else:
+        for i, (m, w, g) in enumerate(zip(msgs, want, got['written'])):
+            if not g.get('ok') or g.get('bytes') != w.hex():
+                fails.append(dict(scenario='write_sequence', args=dict(messages=msgs[:i + 1], note='message #%d of the sequence' % i), expected=dict(bytes=w.hex()), observed=g))
+        for i, ((r, exp), g) in enumerate(zip(reads, got['read'])):
+            if g != exp:
+                fails.append(dict(scenario='write_sequence', args=dict(messages=[], read=[x for (x, _) in reads[:i + 1]], note='read #%d of the sequence' % i), expected=exp, observed=g))
+    return dict(name='write_sequence', validates='that the real encoders / decoders are functions of their arguments only: %d messages with differing status, route and headers written and read back to back in one process' % len(msgs),
+                cases=2 * len(msgs), failed=fails, ok=not fails, props=['C02', 'C07'],
+                clause='every message on the wire is the encoding of exactly the status / route, headers and body it was given, whatever was sent before it')
+
+
+def hostile_streams(env):
+    """C06 on real networks: stream-level misbehaviour of a connected peer on the raw QUIC connection"""
+    args = dict(slow_ms=2500, limit_ms=1200)
+    got = _run('hostile_streams', args, env)
+    fails = []
+    if got.get('panicked'):
+        fails.append(dict(scenario='hostile_streams', args=args, expected=dict(note='no panic'), observed=got))
+    else:
+        for s in got['steps']:
+            if not (s['same_connection_rpc_ok'] and s['other_peer_rpc_ok']):
+                # once more, alone, before it is believed (a loaded machine can make one RPC slow)
+                again = _run('hostile_streams', dict(args, only=[s['misbehaviour']], limit_ms=2000), env)
+                st = (again.get('steps') or [dict(same_connection_rpc_ok=False, other_peer_rpc_ok=False)])[0]
+                if again.get('panicked') or not (st['same_connection_rpc_ok'] and st['other_peer_rpc_ok']):
+                    fails.append(dict(scenario='hostile_streams', args=dict(args, only=[s['misbehaviour']]),
+                                      expected=dict(same_connection_rpc_ok=True, other_peer_rpc_ok=True, note='a well-formed RPC sent right after the misbehaviour is answered within %d ms' % args['limit_ms']),
+                                      observed=dict(first=s, rerun=st)))
+        if not fails and not (got['both_still_connected'] and got['final_rpc_ok'] and got['slow_rpc_ok']):
+            fails.append(dict(scenario='hostile_streams', args=args, expected=dict(both_still_connected=True, final_rpc_ok=True, slow_rpc_ok=True), observed={k: got[k] for k in ('both_still_connected', 'final_rpc_ok', 'slow_rpc_ok')}))
+    return dict(name='hostile_streams', validates='that %d kinds of stream-level misbehaviour of a connected peer (silent, truncated, garbage, huge length prefix, reset, stop, unidirectional stream, datagram, 30 abandoned streams, a slow handler in flight) leave well-formed RPCs on the same connection and from another peer served promptly'
+                % len(got.get('steps', [])), cases=len(got.get('steps', [])), failed=fails, ok=not fails, props=['C06'],
+                clause='while a misbehaving peer\'s connection stays open, well-formed RPCs on its other streams and RPCs with other peers keep succeeding')
